@@ -460,6 +460,24 @@ func FamilyEnum(thorough bool) []*Conv {
 			Solo:         true,
 		})
 	}
+	// enum:map / enum:transform written on a method that does not itself convert the enum (pointer, slice, struct
+	// around it): never silently dropped - generation fails
+	for i, w := range []struct{ name, src, tgt, line string }{
+		{"pointer", "*pfxsrc.Color", "*pfxtgt.Color", "enum:map Nope Green"},
+		{"slice", "[]pfxsrc.Color", "[]pfxtgt.Color", "enum:map Red Green"},
+		{"struct", "struct{ E pfxsrc.Color }", "struct{ E pfxtgt.Color }", `enum:transform regex Re(\w+) Gre$1`},
+		{"mapval", "map[string]pfxsrc.Color", "map[string]pfxtgt.Color", "enum:map Red @ignore"},
+	} {
+		ec := enumCases()[0]
+		out = append(out, &Conv{
+			ID: "enum/fail_mapping_on_non_enum_method/" + w.name, Family: "enum", Format: []string{"struct", "function", "variable"}[i%3],
+			Params: "source " + w.src, Results: w.tgt, ConvLines: []string{"enum:unknown @panic"}, MethodLines: []string{w.line},
+			Spec:       &Spec{},
+			Aux:        map[string]string{"pfxsrc": ec.Src.source("pfxsrc", "Color"), "pfxtgt": ec.Tgt.source("pfxtgt", "Color")},
+			Imports:    []string{`pfxsrc "corpus/GRP/pfxsrc"`, `pfxtgt "corpus/GRP/pfxtgt"`},
+			ExpectFail: true, FailNote: "enum mapping on a method that does not convert an enum to an enum (" + w.name + ")",
+		})
+	}
 	// enums declared in the converter's own package with an unexported member; output into that package
 	{
 		es := &EnumSpec{Unknown: "@error", Map: []EnumArm{{"0", "10"}, {"1", "20"}, {"2", "30"}}}
